@@ -731,17 +731,6 @@ def shim(names):
                     for d in dependants:
                         cls.invalidate(d)
             patch(CanvasCache, "cleanup", classmethod(cleanup))
-        if "rows-cache-off" in names:
-            # not a repair: rows() never answered from cached canvases; used to recognise differences that exist only
-            # because some widget's rows() disagrees with its own render().rows() (property C11)
-            import sys as _sys
-            orig_fetch = CanvasCache.__dict__["fetch"].__func__
-
-            def fetch(cls, widget, wcls, size, focus):
-                if _sys._getframe(1).f_code.co_name == "cached_rows":
-                    return None
-                return orig_fetch(cls, widget, wcls, size, focus)
-            patch(CanvasCache, "fetch", classmethod(fetch))
         if "pile-hidden-child" in names:
             pile_fn = urwid.Pile.render.original_fn
 
@@ -1301,7 +1290,7 @@ class C06(core.Check):
         for tree in kinds:
             for idx in (0, 1):
                 for a in range(18):
-                    for b in (range(4) if tier == "quick" else range(12)):
+                    for b in (range(4) if tier == "quick" else range(8)):
                         yield {"kind": "real", "mode": "swap", "tree": tree,
                                "ops": [["render", 2, 0, 1], ["render", 2, 1, 1], ["mut", idx, a, b, 2],
                                        ["render", 2, 0, 0], ["render", 2, 1, 0]]}
@@ -1431,16 +1420,6 @@ class C06(core.Check):
                     return "root cause: " + "+".join(names)
             except Exception:       # noqa: BLE001
                 continue
-        # not the cache's doing: some widget's rows() disagrees with its own render().rows() without any cache (C11), and
-        # the difference vanishes as soon as rows() is no longer answered from cached canvases
-        if case.get("kind") != "bk":
-            try:
-                with shim(["rows-cache-off"]):
-                    res = run_real(dict(case, probe_c11=True))
-                if res.get("c11") and not judge(case, res):
-                    return "root cause: rows-render-mismatch(C11) of " + "+".join(res["c11"])
-            except Exception:       # noqa: BLE001
-                pass
         return "root cause: unexplained"
 
     def nontrivial(self, case, res):
